@@ -307,7 +307,14 @@ def run(ctx: Ctx) -> None:
             runs = []
             for path in paths:
                 ref = r[path]
-                st, hd, body = U.wsgi_call(app, "POST", ref.url, ref.body, h)
+                hh, wire = h, ref.body
+                if path == "unary" and ctx.rng.random() < 0.15:
+                    # request coding and response coding are independent: sometimes the request itself is compressed
+                    # (with a coding this server decodes: a server that only produces gzip was built without zstd)
+                    tok = ctx.rng.choice([{"z": "zstd", "g": "gzip"}[t] for t in (case["s"] or ["z", "g"])])
+                    hh = {**h, "Content-Encoding": tok}
+                    wire = U.zstd_frame(ref.body) if tok == "zstd" else U.gzip_member(ref.body)
+                st, hd, body = U.wsgi_call(app, "POST", ref.url, wire, hh)
                 runs.append(observe(path, st, hd, body, ref))
                 ctx.case([a_txt, v_txt, case["s"], path])
             obs.append({"case": case, "runs": runs, "_h": [a_txt, v_txt], "_e": cj["exp"]})
